@@ -22,7 +22,9 @@ type c02N struct {
 	kids  []*c02N
 }
 
-var c02Ents = []string{"&amp;", "&lt;", "&gt;", "&quot;", "&#39;", "&#x3c;", "&nbsp;", "&copy;"}
+var c02Ents = []string{"&amp;", "&lt;", "&gt;", "&quot;", "&#39;", "&#x3c;", "&nbsp;", "&copy;",
+	// text that, once decoded, itself looks like a reference or a tag (so an unescaped copy reads back differently)
+	"&amp;lt;", "&amp;amp;", "&amp;copy;", "&amp;#60;", "&lt;/b&gt;", "&lt;i&gt;", "&lt;/textarea&gt;", "&lt;/title&gt;", "&lt;/pre&gt;", "&lt;!--"}
 
 func c02Word(r *Rng) string {
 	if r.Intn(4) == 0 {
@@ -100,7 +102,7 @@ func c02Block(r *Rng, depth int) []*c02N {
 			}
 			out = append(out, &c02N{tag: "table", kids: []*c02N{tb}})
 		case x < 9:
-			out = append(out, &c02N{tag: Pick(r, []string{"pre", "textarea"}), kids: []*c02N{{text: "line1\n  indented " + c02Word(r) + "\nline3"}}})
+			out = append(out, &c02N{tag: Pick(r, []string{"pre", "textarea"}), kids: []*c02N{{text: "line1\n  indented " + c02Text(r) + "\nline3"}}})
 		default:
 			out = append(out, &c02N{tag: Pick(r, []string{"script", "style"}), kids: []*c02N{{text: "a < b && c > d; x = \"" + Pick(r, []string{"q", "lorem"}) + "\";"}}})
 		}
